@@ -338,29 +338,12 @@ func runScheduled(run *core.Run) {
 		}
 	}
 
-	// ---- isolated reference: every worker's pipelines alone, with PRIVATE resolver instances.
-	// The shared instances do not exist yet, so the reference cannot pre-empt a lazy initialisation.
-	ref := make([][]opResult, nworkers)
-	yields := make([]int, nworkers)
-	for i, ps := range w.workers {
-		e := env{ident: newIdentResolver(w.identKind, w.failPaths), name: faults.NameResolver(w.nameKind, gen.Truth())}
-		n := 0
-		count := func(string) { n++ }
-		if pi := core.Catch(func() {
-			for j, p := range ps {
-				execPipe(j, p, e, count, &ref[i])
-			}
-		}); pi != nil {
-			// a panic without any concurrency is not a C16 matter; the workload is skipped
-			run.Count("reference-panicked")
-			run.Event("reference panic %s", pi.Sig())
-			return
-		}
-		yields[i] = n + 1
-	}
+	// estimated number of decision points (the exact number is only known once the pipelines ran)
 	total := 0
-	for _, n := range yields {
-		total += n
+	for _, ps := range w.workers {
+		for _, p := range ps {
+			total += p.reps * (2*strings.Count(p.src, ".") + 6)
+		}
 	}
 
 	// ---- schedule, from the tape
@@ -381,7 +364,7 @@ func runScheduled(run *core.Run) {
 		cfg.Param = []int{20, 100, 500, 900}[t.Draw(4)]
 		cfg.Seed = uint64(t.Draw(1<<30))<<1 | 1
 	}
-	run.Describe("schedule: policy=%s param=%d first=%d change-points=%v (decision points in isolation: %d)", sched.PolicyNames[cfg.Policy], cfg.Param, cfg.First, cfg.ChangePoints, total)
+	run.Describe("schedule: policy=%s param=%d first=%d change-points=%v (estimated decision points: %d)", sched.PolicyNames[cfg.Policy], cfg.Param, cfg.First, cfg.ChangePoints, total)
 
 	// ---- the concurrent run: shared instances, real goroutines, invisible serialisation
 	shared := env{ident: newIdentResolver(w.identKind, w.failPaths), name: faults.NameResolver(w.nameKind, gen.Truth())}
@@ -468,13 +451,6 @@ func runScheduled(run *core.Run) {
 		run.Fail("c16/hang", "", "no progress: worker %d holds the turn at decision point %d and made no step during %d spin iterations of the parked workers (a lock leaked by dst?). finished workers mask=%b", s.Turn(), s.Steps(), s.Blocked(), doneMask)
 		return
 	}
-	// ---- O4 no panic in any worker
-	for i, st := range ws {
-		if st.pi != nil {
-			run.Fail("c16/panic", st.pi.Sig(), "worker %d panicked under the schedule: %s\n%s", i, st.pi.Value, st.pi.Stack)
-			return
-		}
-	}
 	// ---- O1 data-race freedom
 	if n := raceorc.Errors() - racesBefore; n > 0 {
 		reps := raceorc.Parse(raceorc.Drain())
@@ -485,6 +461,30 @@ func runScheduled(run *core.Run) {
 		r := reps[0]
 		run.Fail("c16/race", r.Sig, "data race between caller goroutines that share only what C16 allows:\n%s", r.Text)
 		return
+	}
+	// ---- isolated reference: every worker's pipelines alone, with PRIVATE resolver instances,
+	// run AFTER the concurrent phase so that it cannot warm up (and thereby hide first-use races
+	// on) any lazily initialised state, package-level or inside the shared instances.
+	ref := make([][]opResult, nworkers)
+	for i, ps := range w.workers {
+		e := env{ident: newIdentResolver(w.identKind, w.failPaths), name: faults.NameResolver(w.nameKind, gen.Truth())}
+		if pi := core.Catch(func() {
+			for j, p := range ps {
+				execPipe(j, p, e, nil, &ref[i])
+			}
+		}); pi != nil {
+			// a panic without any concurrency is not a C16 matter; the workload is skipped
+			run.Count("reference-panicked")
+			run.Event("reference panic %s", pi.Sig())
+			return
+		}
+	}
+	// ---- O4 no panic in any worker
+	for i, st := range ws {
+		if st.pi != nil {
+			run.Fail("c16/panic", st.pi.Sig(), "worker %d panicked under the schedule: %s\n%s", i, st.pi.Value, st.pi.Stack)
+			return
+		}
 	}
 	// ---- O2 isolation: every result equals the one obtained alone
 	for i, st := range ws {
